@@ -117,7 +117,8 @@ def r4(ctx, chk):
                    file=fn.file, function=fn.qual, line=n.lineno)
     # the stepping loops move one day at a time towards the named weekday
     loops = [n for n in iter_own_nodes(fn.node) if isinstance(n, ast.While)]
-    ok = len(loops) == 2 and all("steps += 1" in ast.unparse(l) for l in loops)
+    ok = len(loops) == 2 and all(any(isinstance(x, ast.AugAssign) and isinstance(x.op, ast.Add) and isinstance(x.value, ast.Constant)
+                                     and x.value.value == 1 for x in ast.walk(l)) for l in loops)
     chk.ob(rule, "weekday stepping counts single days until the names match", ok, "",
            key={"function": fn.key, "construct": "stepping loops"}, file=fn.file, function=fn.qual, line=fn.node.lineno)
 
